@@ -15,6 +15,9 @@ Lemma bind_ok {A B} (r : res A) (f : A -> res B) b :
   bind r f = Ok b -> exists a, r = Ok a /\ f a = Ok b.
 Proof. destruct r; cbn; intros H; try discriminate. eauto. Qed.
 
+Lemma ok_inj {A} (a b : A) : Ok a = Ok b -> a = b.
+Proof. congruence. Qed.
+
 (* ---------- integers ---------- *)
 Lemma rd_be16 x r : x < 65536 -> rd_u16 (be16 x ++ r) = Some (x, r).
 Proof. intros H. unfold be16, rd_u16, u8. cbn [app]. do 2 f_equal. lia. Qed.
@@ -197,14 +200,15 @@ Lemma rd_exts_ocsp_step f o st body rest oc0 sc :
   rd_exts (S f) true ((be16 extensionStatusRequest ++ body) ++ rest) oc0 sc = rd_exts f true rest (Some o) sc.
 Proof.
   intros Ho Hst Hbody.
-  apply lp24_ok in Hst. destruct Hst as (o' & Eo & Lo & ->). injection Eo as <-.
-  apply lp16_ok in Hbody. destruct Hbody as (d & Ed & Ld & ->). injection Ed as <-.
+  apply lp24_ok in Hst. destruct Hst as (o' & Eo & Lo & ->). assert (o' = o) by congruence; subst o'.
+  apply lp16_ok in Hbody. destruct Hbody as (d & Ed & Ld & ->).
+  assert (d = statusTypeOCSP :: be24 (blen o) ++ o) by congruence; subst d.
   rewrite <- app_assoc. rewrite rd_exts_unfold by apply be16_app_ne. unfold rd_exts_body.
   rewrite rd_be16 by (unfold extensionStatusRequest; lia).
   rewrite rd_lp16_app by exact Ld.
   cbn [negb rd_u8]. replace (extensionStatusRequest =? extensionStatusRequest) with true by (symmetry; apply N.eqb_refl).
   replace (statusTypeOCSP =? statusTypeOCSP) with true by (symmetry; apply N.eqb_refl). cbn [negb].
-  Show. rewrite <- (app_nil_r (be24 (blen o) ++ o)). rewrite rd_lp24_app by exact Lo.
+  rewrite <- (app_nil_r (be24 (blen o) ++ o)). rewrite rd_lp24_app by exact Lo.
   rewrite is_nil_false by exact Ho. reflexivity.
 Qed.
 
@@ -239,21 +243,556 @@ Lemma leaf_exts_rd ocsp scts e :
 Proof.
   intros Ho Hs H fuel Hf. unfold leaf_exts in H.
   apply bind_ok in H. destruct H as (a & Ha & H). apply bind_ok in H. destruct H as (b & Hb & H).
-  inversion H; subst e. clear H.
+  apply ok_inj in H; subst e.
   destruct fuel as [|[|f]]; try lia.
   destruct ocsp as [o|]; destruct scts as [l|].
   - apply bind_ok in Ha. destruct Ha as (st & Hst & Ha). apply bind_ok in Ha. destruct Ha as (body & Hbody & Ha).
-    inversion Ha; subst a. apply bind_ok in Hb. destruct Hb as (body2 & Hbody2 & Hb). inversion Hb; subst b.
+    apply ok_inj in Ha; subst a. apply bind_ok in Hb. destruct Hb as (body2 & Hbody2 & Hb). apply ok_inj in Hb; subst b.
     rewrite (rd_exts_ocsp_step _ o st body _ None None Ho Hst Hbody).
     rewrite <- (app_nil_r (be16 extensionSCT ++ body2)).
     destruct Hs as [Hs1 Hs2].
     rewrite (rd_exts_sct_step _ l body2 [] (Some o) None Hs1 Hs2 Hbody2). apply rd_exts_nil.
   - apply bind_ok in Ha. destruct Ha as (st & Hst & Ha). apply bind_ok in Ha. destruct Ha as (body & Hbody & Ha).
-    inversion Ha; subst a. inversion Hb; subst b.
+    apply ok_inj in Ha; subst a. apply ok_inj in Hb; subst b.
     rewrite (rd_exts_ocsp_step _ o st body _ None None Ho Hst Hbody). apply rd_exts_nil.
-  - inversion Ha; subst a. apply bind_ok in Hb. destruct Hb as (body2 & Hbody2 & Hb). inversion Hb; subst b.
+  - apply ok_inj in Ha; subst a. apply bind_ok in Hb. destruct Hb as (body2 & Hbody2 & Hb). apply ok_inj in Hb; subst b.
     cbn [app]. rewrite <- (app_nil_r (be16 extensionSCT ++ body2)).
     destruct Hs as [Hs1 Hs2].
     rewrite (rd_exts_sct_step _ l body2 [] None None Hs1 Hs2 Hbody2). apply rd_exts_nil.
-  - inversion Ha; inversion Hb; subst. apply rd_exts_nil.
+  - apply ok_inj in Ha; apply ok_inj in Hb; subst a b. apply rd_exts_nil.
 Qed.
+
+Definition rd_entries_body (f : nat) (s : bytes) (certs : list bytes) (ocsp : option bytes) (scts : option (list bytes)) :=
+      match rd_lp24 s with
+      | None => None
+      | Some (cert, s1) =>
+        match rd_lp16 s1 with
+        | None => None
+        | Some (exts, s2) =>
+          let certs' := certs ++ [cert] in
+          match rd_exts (length exts) (Nat.leb (length certs') 1) exts ocsp scts with
+          | None => None
+          | Some (ocsp', scts') => rd_entries f s2 certs' ocsp' scts'
+          end
+        end
+      end.
+Lemma rd_entries_unfold f s certs oc sc : s <> [] -> rd_entries (S f) s certs oc sc = rd_entries_body f s certs oc sc.
+Proof. destruct s; [congruence | reflexivity]. Qed.
+Lemma rd_entries_nil fuel certs oc sc : rd_entries fuel [] certs oc sc = Some (certs, oc, sc).
+Proof. destruct fuel; reflexivity. Qed.
+
+Lemma cert_entry_ok c exts out : cert_entry c exts = Ok out ->
+  exists e, exts = Ok e /\ blen c < 16777216 /\ blen e < 65536 /\
+            out = (be24 (blen c) ++ c) ++ (be16 (blen e) ++ e).
+Proof.
+  unfold cert_entry. intros H. apply bind_ok in H. destruct H as (a & Ha & H).
+  apply bind_ok in H. destruct H as (b & Hb & H). apply ok_inj in H. subst out.
+  apply lp24_ok in Ha. destruct Ha as (c' & Ec & Lc & ->). assert (c' = c) by congruence; subst c'.
+  apply lp16_ok in Hb. destruct Hb as (e & Ee & Le & ->). exists e. auto.
+Qed.
+
+Lemma rd_entries_rest rest : forall bs, cat_map (fun c => cert_entry c (Ok [])) rest = Ok bs ->
+  forall fuel acc oc sc, (length rest <= fuel)%nat ->
+  rd_entries fuel bs acc oc sc = Some (acc ++ rest, oc, sc).
+Proof.
+  induction rest as [|c rest IH]; intros bs H fuel acc oc sc Hf.
+  - cbn in H. apply ok_inj in H. subst bs. rewrite app_nil_r. apply rd_entries_nil.
+  - cbn [cat_map] in H. apply bind_ok in H. destruct H as (a & Ha & H).
+    apply bind_ok in H. destruct H as (b & Hb & H). apply ok_inj in H. subst bs.
+    apply cert_entry_ok in Ha. destruct Ha as (e & Ee & Lc & Le & ->).
+    assert (e = []) by congruence; subst e.
+    destruct fuel as [|f]; [cbn in Hf; lia|].
+    rewrite <- !app_assoc. rewrite rd_entries_unfold by apply be24_app_ne. unfold rd_entries_body.
+    rewrite (app_assoc (be24 (blen c)) c), rd_lp24_app by exact Lc.
+    rewrite (app_assoc (be16 (blen [])) []), rd_lp16_app by exact Le.
+    cbn zeta. rewrite rd_exts_nil.
+    rewrite (IH b Hb f (acc ++ [c]) oc sc) by (cbn in Hf; lia).
+    rewrite <- app_assoc. reflexivity.
+Qed.
+
+Definition cert_wf (certs : list bytes) (ocsp : option bytes) (scts : option (list bytes)) : Prop :=
+  match ocsp with Some o => o <> [] | None => True end /\
+  match scts with Some l => l <> [] /\ Forall nonnil l | None => True end /\
+  (certs = [] -> ocsp = None /\ scts = None).
+
+Lemma leaf_exts_len ocsp scts e : leaf_exts ocsp scts = Ok e -> e = [] \/ (2 <= length e)%nat.
+Proof.
+  unfold leaf_exts. intros H.
+  apply bind_ok in H. destruct H as (a & Ha & H). apply bind_ok in H. destruct H as (b & Hb & H).
+  apply ok_inj in H. subst e.
+  destruct ocsp as [o|].
+  - apply bind_ok in Ha. destruct Ha as (st & _ & Ha). apply bind_ok in Ha. destruct Ha as (body & _ & Ha).
+    apply ok_inj in Ha. subst a. right. rewrite !app_length. unfold be16. cbn [length]. lia.
+  - apply ok_inj in Ha. subst a. destruct scts as [l|].
+    + apply bind_ok in Hb. destruct Hb as (body & _ & Hb). apply ok_inj in Hb. subst b.
+      right. rewrite !app_length. unfold be16. cbn [length]. lia.
+    + apply ok_inj in Hb. subst b. left. reflexivity.
+Qed.
+
+Lemma unmarshal_marshal certs ocsp scts out r :
+  cert_wf certs ocsp scts -> marshal_certificate certs ocsp scts = Ok out ->
+  unmarshal_certificate (out ++ r) = Some ((certs, ocsp, scts), r).
+Proof.
+  intros (Ho & Hs & Hnil) H. unfold marshal_certificate in H.
+  apply lp24_ok in H. destruct H as (lst & El & Ll & ->).
+  unfold unmarshal_certificate. rewrite rd_lp24_app by exact Ll.
+  destruct certs as [|c0 rest].
+  - apply ok_inj in El. subst lst. destruct (Hnil eq_refl) as [-> ->]. reflexivity.
+  - apply bind_ok in El. destruct El as (a & Ha & El). apply bind_ok in El. destruct El as (b & Hb & El).
+    apply ok_inj in El. subst lst.
+    apply cert_entry_ok in Ha. destruct Ha as (e & Ee & Lc & Le & ->).
+    assert (Hfuel : (S (length rest) <= length (((be24 (blen c0) ++ c0) ++ be16 (blen e) ++ e) ++ b))%nat).
+    { pose proof (cat_map_len (fun c => cert_entry c (Ok [])) (fun a b H => ltac:(apply cert_entry_ok in H; destruct H as (? & _ & _ & _ & ->); rewrite <- app_assoc; apply be24_app_ne)) rest b Hb).
+      rewrite !app_length. unfold be24. cbn [length]. lia. }
+    destruct (length (((be24 (blen c0) ++ c0) ++ be16 (blen e) ++ e) ++ b)) as [|f] eqn:Ef; [lia|].
+    rewrite <- !app_assoc. rewrite rd_entries_unfold by apply be24_app_ne. unfold rd_entries_body.
+    rewrite (app_assoc (be24 (blen c0)) c0), rd_lp24_app by exact Lc.
+    rewrite (app_assoc (be16 (blen e)) e), rd_lp16_app by exact Le.
+    cbn zeta. cbn [app length Nat.leb].
+    destruct (leaf_exts_len _ _ _ Ee) as [-> | He2].
+    + (* no extensions emitted: both must be None *)
+      assert (ocsp = None /\ scts = None) as [-> ->].
+      { unfold leaf_exts in Ee. destruct ocsp as [o|].
+        - apply bind_ok in Ee. destruct Ee as (a & Ha & Ee). apply bind_ok in Ha. destruct Ha as (st & _ & Ha).
+          apply bind_ok in Ha. destruct Ha as (body & _ & Ha). apply ok_inj in Ha. subst a.
+          apply bind_ok in Ee. destruct Ee as (b' & _ & Ee). apply ok_inj in Ee. unfold be16 in Ee. discriminate.
+        - destruct scts as [l|]; [|auto].
+          apply bind_ok in Ee. destruct Ee as (a & Ha & Ee). apply ok_inj in Ha. subst a.
+          apply bind_ok in Ee. destruct Ee as (b' & Hb' & Ee). apply bind_ok in Hb'. destruct Hb' as (body & _ & Hb').
+          apply ok_inj in Hb'. subst b'. apply ok_inj in Ee. unfold be16 in Ee. discriminate. }
+      rewrite rd_exts_nil. rewrite (rd_entries_rest rest b Hb f [c0] None None) by lia. reflexivity.
+    + rewrite (leaf_exts_rd ocsp scts e Ho Hs Ee _ He2).
+      rewrite (rd_entries_rest rest b Hb f [c0] ocsp scts) by lia. reflexivity.
+Qed.
+
+(* ---------- verified chains ---------- *)
+Section Parse.
+Variable x509ok : bytes -> bool.
+
+Lemma chain_tail_nil fuel : chain_tail x509ok fuel [] = Ok [].
+Proof. destruct fuel; reflexivity. Qed.
+
+Lemma chain_tail_ok tl : forall bs, forallb x509ok tl = true ->
+  cat_map (fun c => lp24 (Ok c)) tl = Ok bs ->
+  forall fuel, (length tl <= fuel)%nat -> chain_tail x509ok fuel bs = Ok tl.
+Proof.
+  induction tl as [|c tl IH]; intros bs Hx H fuel Hf.
+  - cbn in H. apply ok_inj in H. subst bs. apply chain_tail_nil.
+  - cbn [cat_map] in H. apply bind_ok in H. destruct H as (a & Ha & H).
+    apply bind_ok in H. destruct H as (b & Hb & H). apply ok_inj in H. subst bs.
+    cbn [forallb] in Hx. apply andb_true_iff in Hx. destruct Hx as [Hc Hx].
+    destruct (rd_lp24_item c a b Ha) as [Hr Hne].
+    destruct fuel as [|f]; [cbn in Hf; lia|].
+    destruct a as [|a0 a']; [congruence|].
+    cbn [chain_tail app]. change (a0 :: a' ++ b) with ((a0 :: a') ++ b). rewrite Hr, Hc.
+    rewrite (IH b Hx Hb f) by (cbn in Hf; lia). reflexivity.
+Qed.
+
+Lemma rd_chains_nil fuel certs : rd_chains x509ok fuel certs [] = Ok [].
+Proof. destruct fuel; reflexivity. Qed.
+
+Lemma chain_okb_inv certs ch : chain_okb x509ok certs ch = true ->
+  exists leaf rest tl, certs = leaf :: rest /\ ch = leaf :: tl /\ forallb x509ok tl = true.
+Proof.
+  unfold chain_okb. destruct certs as [|leaf rest]; [discriminate|]. destruct ch as [|c0 tl]; [discriminate|].
+  intros H. apply andb_true_iff in H. destruct H as [E Hx]. apply bytes_eqb_eq in E. subst c0.
+  exists leaf, rest, tl. auto.
+Qed.
+
+Lemma rd_chains_ok certs chains : forall bs, forallb (chain_okb x509ok certs) chains = true ->
+  cat_map chain_bytes chains = Ok bs ->
+  forall fuel, (length chains <= fuel)%nat -> rd_chains x509ok fuel certs bs = Ok chains.
+Proof.
+  induction chains as [|ch chains IH]; intros bs Hw H fuel Hf.
+  - cbn in H. apply ok_inj in H. subst bs. apply rd_chains_nil.
+  - cbn [cat_map] in H. apply bind_ok in H. destruct H as (a & Ha & H).
+    apply bind_ok in H. destruct H as (b & Hb & H). apply ok_inj in H. subst bs.
+    cbn [forallb] in Hw. apply andb_true_iff in Hw. destruct Hw as [Hc Hw].
+    destruct (chain_okb_inv _ _ Hc) as (leaf & rest & tl & -> & -> & Hx).
+    unfold chain_bytes in Ha. apply lp24_ok in Ha. destruct Ha as (cl & Ecl & Lcl & ->).
+    destruct fuel as [|f]; [cbn in Hf; lia|].
+    pose proof (be24_app_ne (blen cl) (cl ++ b)) as Hne. rewrite app_assoc in Hne.
+    destruct ((be24 (blen cl) ++ cl) ++ b) as [|x0 xs] eqn:Ex; [congruence|].
+    cbn [rd_chains]. rewrite <- Ex. rewrite rd_lp24_app by exact Lcl.
+    assert (Hlen : (length tl <= length cl)%nat).
+    { eapply cat_map_len; [|exact Ecl]. intros a0 b0. apply lp24_ne. }
+    rewrite (chain_tail_ok tl cl Hx Ecl _ Hlen). cbn [bind].
+    rewrite (IH b Hw Hb f) by (cbn in Hf; lia). reflexivity.
+Qed.
+
+Lemma chain_bytes_ne ch out : chain_bytes ch = Ok out -> out <> [].
+Proof.
+  unfold chain_bytes. intros H. apply lp24_ok in H. destruct H as (b & _ & _ & ->). apply be24_app_ne.
+Qed.
+End Parse.
+
+(* ---------- SessionState.Bytes / ParseSessionState ---------- *)
+Lemma forallb_nonnil (l : list bytes) : forallb (fun x => negb (is_nil x)) l = true -> Forall nonnil l.
+Proof.
+  intros H. apply Forall_forall. intros x Hx. rewrite forallb_forall in H. specialize (H x Hx).
+  destruct x; [discriminate | unfold nonnil; discriminate].
+Qed.
+Lemma negb_is_nil {A} (l : list A) : negb (is_nil l) = true -> l <> [].
+Proof. destruct l; [discriminate | discriminate]. Qed.
+
+Lemma rd_u8_app x r : rd_u8 ([x] ++ r) = Some (x, r).
+Proof. reflexivity. Qed.
+
+Theorem state_codec_roundtrip (x509ok : bytes -> bool) (s : state) (b : bytes) :
+  wf_state x509ok s -> state_bytes s = Ok b -> parse_state x509ok b = Ok s.
+Proof.
+  intros Hwf H. destruct s as [version isClient suite createdAt secret extra ems early certs ocsp scts chains alpn useBy ageAdd].
+  unfold wf_state, wf_stateb in Hwf. cbn [s_version s_isClient s_suite s_createdAt s_secret s_extra s_ems s_early s_certs s_ocsp s_scts s_chains s_alpn s_useBy s_ageAdd] in Hwf.
+  rewrite !andb_true_iff in Hwf.
+  destruct Hwf as [[[[[[[[[[[Wv Wsu] Wcr] Wsec] Wocsp] Wscts] Wnil] Wx] Wch] Walpn] Wcl] Wtail].
+  unfold state_bytes in H. cbn [s_version s_isClient s_suite s_createdAt s_secret s_extra s_ems s_early s_certs s_ocsp s_scts s_chains s_alpn s_useBy s_ageAdd] in H.
+  apply bind_ok in H. destruct H as (secE & Hsec & H).
+  apply bind_ok in H. destruct H as (extE & Hext & H).
+  apply bind_ok in H. destruct H as (certE & Hcert & H).
+  apply bind_ok in H. destruct H as (chE & Hch & H).
+  apply bind_ok in H. destruct H as (alpnE & Halpn & H).
+  apply ok_inj in H. subst b.
+  apply lp8_ok in Hsec. destruct Hsec as (sec' & Es & Ls & ->). assert (sec' = secret) by congruence; subst sec'.
+  apply lp24_ok in Hext. destruct Hext as (eb & Eeb & Leb & ->).
+  apply lp24_ok in Hch. destruct Hch as (cb & Ecb & Lcb & ->).
+  assert (Hcw : cert_wf certs ocsp scts).
+  { unfold cert_wf. split; [|split].
+    - destruct ocsp; [apply negb_is_nil; exact Wocsp | exact I].
+    - destruct scts as [l|]; [|exact I]. apply andb_true_iff in Wscts. destruct Wscts as [A B].
+      split; [apply negb_is_nil; exact A | apply forallb_nonnil; exact B].
+    - intros ->. cbn in Wnil. destruct ocsp, scts; try discriminate. auto. }
+  assert (Hchlen : (length chains <= length cb)%nat).
+  { eapply cat_map_len; [|exact Ecb]. apply chain_bytes_ne. }
+  unfold parse_state.
+  rewrite rd_be16 by lia. cbn [opt_res bind]. rewrite rd_u8_app. cbn [opt_res bind].
+  assert (Htyp : ((if isClient then 2 else 1) =? 1) || ((if isClient then 2 else 1) =? 2) = true) by (destruct isClient; reflexivity).
+  rewrite Htyp. cbn [guard bind].
+  rewrite rd_be16 by lia. cbn [opt_res bind].
+  rewrite rd_be64 by lia. cbn [opt_res bind].
+  rewrite rd_lp8_app by exact Ls. cbn [opt_res bind].
+  rewrite rd_lp24_app by exact Leb. cbn [opt_res bind]. rewrite rd_u8_app. cbn [opt_res bind]. rewrite rd_u8_app. cbn [opt_res bind].
+  rewrite Wsec. cbn [guard bind].
+  rewrite (unmarshal_marshal certs ocsp scts certE _ Hcw Hcert). cbn [opt_res bind].
+  rewrite (rd_list24 extra eb Eeb). cbn [opt_res bind].
+  assert (Hems : (b2n ems =? 0) || (b2n ems =? 1) = true) by (destruct ems; reflexivity).
+  assert (Hearly : (b2n early =? 0) || (b2n early =? 1) = true) by (destruct early; reflexivity).
+  rewrite Hems, Hearly. cbn [guard bind]. rewrite Wx. cbn [guard bind].
+  rewrite rd_lp24_app by exact Lcb. cbn [opt_res bind].
+  rewrite (rd_chains_ok x509ok certs chains cb Wch Ecb _ Hchlen). cbn [bind].
+  assert (Hems1 : (b2n ems =? 1) = ems) by (destruct ems; reflexivity).
+  assert (Hearly1 : (b2n early =? 1) = early) by (destruct early; reflexivity).
+  rewrite Hems1, Hearly1.
+  assert (Halp : exists al, (if early then opt_res (rd_lp8 (alpnE ++ (if isClient && (VersionTLS13 <=? version) then be64 useBy ++ be32 ageAdd else [])))
+                 else Ok (al, alpnE ++ (if isClient && (VersionTLS13 <=? version) then be64 useBy ++ be32 ageAdd else [])))
+                = Ok (alpn, if isClient && (VersionTLS13 <=? version) then be64 useBy ++ be32 ageAdd else []) /\ al = []).
+  { exists []. split; [|reflexivity]. destruct early.
+    - apply lp8_ok in Halpn. destruct Halpn as (a' & Ea & La & ->). assert (a' = alpn) by congruence; subst a'.
+      rewrite rd_lp8_app by exact La. reflexivity.
+    - apply ok_inj in Halpn. subst alpnE. cbn in Walpn. apply is_nil_true_iff in Walpn. subst alpn. reflexivity. }
+  destruct Halp as (al & Halp & ->).
+  match goal with |- bind ?X _ = _ => replace X with (Ok (alpn, if isClient && (VersionTLS13 <=? version) then be64 useBy ++ be32 ageAdd else [])) end.
+  cbn [bind].
+  destruct isClient.
+  - cbn [negb andb] in *. replace (2 =? 2) with true by reflexivity. cbn [negb].
+    rewrite (is_nil_false certs) by (apply negb_is_nil; exact Wcl). cbn [negb guard bind].
+    destruct (VersionTLS13 <=? version) eqn:Ev.
+    + replace (version <? VersionTLS13) with false by lia.
+      apply andb_true_iff in Wtail. destruct Wtail as [Wu Wa].
+      rewrite rd_be64 by lia. cbn [opt_res bind].
+      rewrite <- (app_nil_r (be32 ageAdd)). rewrite rd_be32 by lia. cbn [opt_res bind is_nil guard]. reflexivity.
+    + replace (version <? VersionTLS13) with true by lia. cbn [is_nil guard bind].
+      apply andb_true_iff in Wtail. destruct Wtail as [Wu Wa].
+      apply N.eqb_eq in Wu, Wa. subst. reflexivity.
+  - cbn [andb negb] in *. replace (1 =? 2) with false by reflexivity. cbn [negb is_nil guard bind].
+    apply andb_true_iff in Wtail. destruct Wtail as [Wu Wa].
+    apply N.eqb_eq in Wu, Wa. subst. reflexivity.
+Qed.
+
+(* ---------- ticket framing ---------- *)
+Section Crypto.
+Variable hmac : bytes -> bytes -> bytes.
+Variable ctr : bytes -> bytes -> bytes -> bytes.
+Variable sha512 : bytes -> bytes.
+Variable x509ok : bytes -> bool.
+Hypothesis ctr_inv : forall k iv x, ctr k iv (ctr k iv x) = x.
+Hypothesis ctr_len : forall k iv x, length (ctr k iv x) = length x.
+Hypothesis hmac_len : forall k m, length (hmac k m) = 32%nat.
+
+Notation decrypt_ticket := (decrypt_ticket hmac ctr).
+Notation encrypt_ticket := (encrypt_ticket hmac ctr).
+Notation try_keys := (try_keys hmac ctr).
+Notation DecryptTicket := (DecryptTicket hmac ctr x509ok).
+Notation EncryptTicket := (EncryptTicket hmac ctr).
+
+(* the pieces decryptTicket cuts a ticket into *)
+Definition t_auth (t : bytes) : bytes := firstn (length t - macLen) t.
+Definition t_tag (t : bytes) : bytes := skipn (length t - macLen) t.
+Definition t_iv (t : bytes) : bytes := firstn ivLen t.
+Definition t_ct (t : bytes) : bytes := skipn ivLen (t_auth t).
+
+Lemma t_split t : t = t_auth t ++ t_tag t.
+Proof. unfold t_auth, t_tag. symmetry. apply firstn_skipn. Qed.
+
+Lemma decrypt_unfold keys t : (ivLen + macLen <= length t)%nat ->
+  decrypt_ticket keys t = try_keys keys (t_iv t) (t_ct t) (t_auth t) (t_tag t).
+Proof.
+  intros H. unfold Ticket.decrypt_ticket.
+  destruct (length t <? ivLen + macLen)%nat eqn:E; [apply Nat.ltb_lt in E; lia|]. reflexivity.
+Qed.
+
+(* framing of a sealed ticket: iv || CTR(state) || HMAC(iv || CTR(state)) *)
+Lemma sealed_parts k rest iv st t : length iv = ivLen ->
+  encrypt_ticket (k :: rest) iv st = Ok t ->
+  t = iv ++ ctr (k_aes k) iv st ++ hmac (k_hmac k) (iv ++ ctr (k_aes k) iv st) /\
+  t_iv t = iv /\ t_ct t = ctr (k_aes k) iv st /\ t_auth t = iv ++ ctr (k_aes k) iv st /\
+  t_tag t = hmac (k_hmac k) (iv ++ ctr (k_aes k) iv st) /\
+  length t = (ivLen + length st + macLen)%nat.
+Proof.
+  intros Hiv H. cbn [Ticket.encrypt_ticket] in H. apply ok_inj in H. subst t.
+  set (ct := ctr (k_aes k) iv st). set (tag := hmac (k_hmac k) (iv ++ ct)).
+  assert (Lt : length tag = macLen) by apply hmac_len.
+  assert (Lc : length ct = length st) by apply ctr_len.
+  assert (La : (length ((iv ++ ct) ++ tag) - macLen = length (iv ++ ct))%nat) by (rewrite !app_length; lia).
+  assert (A : t_auth ((iv ++ ct) ++ tag) = iv ++ ct).
+  { unfold t_auth. rewrite La. rewrite firstn_app, Nat.sub_diag, firstn_all, firstn_O, app_nil_r. reflexivity. }
+  repeat split.
+  - rewrite app_assoc. reflexivity.
+  - unfold t_iv. rewrite <- app_assoc. rewrite firstn_app, <- Hiv, Nat.sub_diag, firstn_all, firstn_O, app_nil_r. reflexivity.
+  - unfold t_ct. rewrite A. rewrite skipn_app, <- Hiv, Nat.sub_diag, skipn_all. reflexivity.
+  - exact A.
+  - unfold t_tag. rewrite La. rewrite skipn_app, Nat.sub_diag, skipn_all. reflexivity.
+  - rewrite !app_length. lia.
+Qed.
+
+Lemma try_keys_in keys iv ct auth tag k :
+  In k keys -> hmac (k_hmac k) auth = tag ->
+  (forall k', In k' keys -> hmac (k_hmac k') auth = tag -> k_aes k' = k_aes k) ->
+  try_keys keys iv ct auth tag = Some (ctr (k_aes k) iv ct).
+Proof.
+  induction keys as [|k0 keys IH]; intros Hin Hk Hconf; [destruct Hin|].
+  cbn [Ticket.try_keys]. destruct (bytes_eqb tag (hmac (k_hmac k0) auth)) eqn:E.
+  - apply bytes_eqb_eq in E. rewrite (Hconf k0 (or_introl eq_refl) (eq_sym E)). reflexivity.
+  - destruct Hin as [-> | Hin].
+    + rewrite Hk in E. assert (bytes_eqb tag tag = true) by (apply bytes_eqb_eq; reflexivity). congruence.
+    + apply IH; auto. intros k' Hk'. apply Hconf. right. exact Hk'.
+Qed.
+
+Lemma try_keys_some keys iv ct auth tag pt :
+  try_keys keys iv ct auth tag = Some pt ->
+  exists k, In k keys /\ hmac (k_hmac k) auth = tag /\ pt = ctr (k_aes k) iv ct.
+Proof.
+  induction keys as [|k0 keys IH]; cbn [Ticket.try_keys]; [discriminate|].
+  destruct (bytes_eqb tag (hmac (k_hmac k0) auth)) eqn:E; intros H.
+  - apply bytes_eqb_eq in E. exists k0. split; [left; reflexivity|]. split; [auto | congruence].
+  - destruct (IH H) as (k & Hin & Hm & Hp). exists k. split; [right; exact Hin | auto].
+Qed.
+
+Lemma try_keys_none keys iv ct auth tag :
+  (forall k, In k keys -> hmac (k_hmac k) auth <> tag) -> try_keys keys iv ct auth tag = None.
+Proof.
+  induction keys as [|k0 keys IH]; intros H; [reflexivity|]. cbn [Ticket.try_keys].
+  destruct (bytes_eqb tag (hmac (k_hmac k0) auth)) eqn:E.
+  - apply bytes_eqb_eq in E. exfalso. apply (H k0 (or_introl eq_refl)). auto.
+  - apply IH. intros k Hk. apply H. right. exact Hk.
+Qed.
+
+(* round trip: the sealing key is configured somewhere in the list used to decrypt, and no
+   configured key that validates the same tag has a different AES key *)
+Theorem ticket_roundtrip keysE restE keysD k iv s t :
+  keysE = k :: restE -> In k keysD -> length iv = ivLen -> wf_state x509ok s ->
+  (forall k', In k' keysD -> hmac (k_hmac k') (t_auth t) = t_tag t -> k_aes k' = k_aes k) ->
+  EncryptTicket keysE iv s = Ok t -> DecryptTicket keysD t = Some s.
+Proof.
+  intros -> Hin Hiv Hwf Hconf H. unfold Ticket.EncryptTicket in H.
+  apply bind_ok in H. destruct H as (st & Hst & H).
+  destruct (sealed_parts k restE iv st t Hiv H) as (_ & Tiv & Tct & Tau & Ttag & Tlen).
+  unfold Ticket.DecryptTicket. rewrite decrypt_unfold by lia.
+  rewrite (try_keys_in keysD _ _ _ _ k Hin) ; [| rewrite Tau, Ttag; reflexivity | exact Hconf].
+  rewrite Tiv, Tct, ctr_inv. rewrite (state_codec_roundtrip x509ok s st Hwf Hst). reflexivity.
+Qed.
+
+(* the sealing key is the first key of the decrypting list: no side condition *)
+Theorem ticket_roundtrip_head k restE restD iv s t :
+  length iv = ivLen -> wf_state x509ok s ->
+  EncryptTicket (k :: restE) iv s = Ok t -> DecryptTicket (k :: restD) t = Some s.
+Proof.
+  intros Hiv Hwf H. unfold Ticket.EncryptTicket in H.
+  apply bind_ok in H. destruct H as (st & Hst & H).
+  destruct (sealed_parts k restE iv st t Hiv H) as (_ & Tiv & Tct & Tau & Ttag & Tlen).
+  unfold Ticket.DecryptTicket. rewrite decrypt_unfold by lia. cbn [Ticket.try_keys].
+  rewrite Tau, Ttag. replace (bytes_eqb _ _) with true by (symmetry; apply bytes_eqb_eq; reflexivity).
+  rewrite Tiv, Tct, ctr_inv. rewrite (state_codec_roundtrip x509ok s st Hwf Hst). reflexivity.
+Qed.
+
+(* acceptance => a valid MAC under a configured key over every byte that is not the tag, and the
+   state is the parse of the CTR decryption under that same key *)
+Theorem ticket_mac_covers_all keys t s : DecryptTicket keys t = Some s ->
+  (ivLen + macLen <= length t)%nat /\
+  exists k, In k keys /\ hmac (k_hmac k) (t_auth t) = t_tag t /\
+            parse_state x509ok (ctr (k_aes k) (t_iv t) (t_ct t)) = Ok s.
+Proof.
+  unfold Ticket.DecryptTicket. intros H.
+  destruct (decrypt_ticket keys t) as [pt|] eqn:D; [|discriminate].
+  assert (L : (ivLen + macLen <= length t)%nat).
+  { unfold Ticket.decrypt_ticket in D. destruct (length t <? ivLen + macLen)%nat eqn:E; [discriminate|].
+    apply Nat.ltb_ge in E. exact E. }
+  split; [exact L|]. rewrite decrypt_unfold in D by exact L.
+  destruct (try_keys_some _ _ _ _ _ _ D) as (k & Hin & Hm & ->).
+  exists k. split; [exact Hin|]. split; [exact Hm|].
+  destruct (parse_state x509ok _) as [s'| |]; congruence.
+Qed.
+
+Theorem ticket_short keys t : (length t < ivLen + macLen)%nat -> DecryptTicket keys t = None.
+Proof.
+  intros H. unfold Ticket.DecryptTicket, Ticket.decrypt_ticket.
+  replace (length t <? ivLen + macLen)%nat with true by (symmetry; apply Nat.ltb_lt; exact H). reflexivity.
+Qed.
+
+(* no configured key validates the tag (e.g. the sealing key was rotated out) => no state *)
+Theorem rotated_out keys t :
+  (forall k, In k keys -> hmac (k_hmac k) (t_auth t) <> t_tag t) -> DecryptTicket keys t = None.
+Proof.
+  intros H. unfold Ticket.DecryptTicket.
+  destruct (length t <? ivLen + macLen)%nat eqn:E.
+  - unfold Ticket.decrypt_ticket. rewrite E. reflexivity.
+  - apply Nat.ltb_ge in E. rewrite decrypt_unfold by exact E. rewrite try_keys_none by exact H. reflexivity.
+Qed.
+
+(* replacing the tag by a different 32-byte string that no other configured key produces => no state *)
+Theorem ticket_tag_flip k others iv s t tag' :
+  length iv = ivLen -> EncryptTicket (k :: others) iv s = Ok t ->
+  length tag' = macLen -> tag' <> t_tag t ->
+  (forall k', In k' others -> hmac (k_hmac k') (t_auth t) <> tag') ->
+  DecryptTicket (k :: others) (t_auth t ++ tag') = None.
+Proof.
+  intros Hiv H Ltag Hne Hoth. unfold Ticket.EncryptTicket in H.
+  apply bind_ok in H. destruct H as (st & Hst & H).
+  destruct (sealed_parts k others iv st t Hiv H) as (_ & Tiv & Tct & Tau & Ttag & Tlen).
+  assert (La : length (t_auth t) = (ivLen + length st)%nat) by (rewrite Tau, app_length, ctr_len; lia).
+  assert (A : t_auth (t_auth t ++ tag') = t_auth t).
+  { unfold t_auth at 1. rewrite app_length, Ltag. replace (length (t_auth t) + macLen - macLen)%nat with (length (t_auth t)) by lia.
+    rewrite firstn_app, Nat.sub_diag, firstn_all, firstn_O, app_nil_r. reflexivity. }
+  assert (T : t_tag (t_auth t ++ tag') = tag').
+  { unfold t_tag. rewrite app_length, Ltag. replace (length (t_auth t) + macLen - macLen)%nat with (length (t_auth t)) by lia.
+    rewrite skipn_app, Nat.sub_diag, skipn_all. reflexivity. }
+  apply rotated_out. rewrite A, T. intros k' [<- | Hk'].
+  - rewrite Tau in *. rewrite <- Ttag. congruence.
+  - apply Hoth. exact Hk'.
+Qed.
+
+(* ---------- key derivation and installation ---------- *)
+Hypothesis sha512_len : forall b, length (sha512 b) = 64%nat.
+Notation ticket_key_from_bytes := (ticket_key_from_bytes sha512).
+Notation TicketKeyFromBytes := (TicketKeyFromBytes sha512).
+Notation set_session_ticket_keys := (set_session_ticket_keys sha512).
+Notation ticket_keys := (ticket_keys sha512).
+Notation rotate := (rotate sha512).
+
+Lemma key_lengths b : length (k_aes (ticket_key_from_bytes b)) = 16%nat /\ length (k_hmac (ticket_key_from_bytes b)) = 16%nat.
+Proof.
+  unfold Ticket.ticket_key_from_bytes. cbn [k_aes k_hmac].
+  rewrite !firstn_length, !skipn_length, sha512_len. split; reflexivity.
+Qed.
+
+(* the slices: hashed[16:32] and hashed[32:48] *)
+Lemma key_slices b h : sha512 b = h ->
+  ticket_key_from_bytes b = mkKey (firstn 16 (skipn 16 h)) (firstn 16 (skipn 32 h)).
+Proof. intros <-. reflexivity. Qed.
+
+Theorem keys_same_derivation c now b bs c' :
+  set_session_ticket_keys c now (b :: bs) = Ok c' ->
+  map fst (c_keys c') = map (fun x => to_private (TicketKeyFromBytes x)) (b :: bs) /\
+  to_private (TicketKeyFromBytes b) = ticket_key_from_bytes b.
+Proof.
+  intros H. cbn [Ticket.set_session_ticket_keys] in H. apply ok_inj in H. subst c'.
+  cbn [c_keys]. rewrite map_map. split.
+  - apply map_ext. intros x. cbn [fst]. unfold Ticket.TicketKeyFromBytes, to_private, to_public.
+    destruct (ticket_key_from_bytes x). reflexivity.
+  - unfold Ticket.TicketKeyFromBytes, to_private, to_public. destruct (ticket_key_from_bytes b). reflexivity.
+Qed.
+
+Lemma deprecated_not_zero r : bytes_eqb (deprecated ++ r) zero32 = false.
+Proof. reflexivity. Qed.
+
+(* with explicitly installed keys, ticketKeys returns exactly those (and leaves them installed) *)
+Lemma ticket_keys_explicit c now rnd :
+  c_disabled c = false -> c_keys c <> [] -> (bytes_eqb (c_stk c) zero32 = false \/ (32 <= length rnd)%nat) ->
+  exists c' rnd', ticket_keys c now rnd = Ok (map fst (c_keys c), c', rnd') /\
+    c_keys c' = c_keys c /\ c_disabled c' = false /\ bytes_eqb (c_stk c') zero32 = false /\
+    (bytes_eqb (c_stk c) zero32 = false -> rnd' = rnd).
+Proof.
+  intros Hd Hk Hr. unfold Ticket.ticket_keys. rewrite Hd. unfold init_legacy.
+  rewrite (is_nil_false _ Hk). cbn [negb]. rewrite orb_true_r.
+  destruct (bytes_eqb (c_stk c) zero32) eqn:Ez; cbn [negb andb].
+  - destruct Hr as [Hr | Hr]; [discriminate|]. unfold take_rand.
+    replace (32 <=? length rnd)%nat with true by (symmetry; apply Nat.leb_le; exact Hr).
+    cbn [bind c_keys]. rewrite (is_nil_false _ Hk). cbn [negb].
+    eexists _, _. split; [reflexivity|]. cbn [c_keys c_disabled c_stk].
+    repeat split; auto. discriminate.
+  - cbn [bind]. rewrite (is_nil_false _ Hk). cbn [negb].
+    eexists _, _. split; [reflexivity|]. auto.
+Qed.
+
+(* key rotation by SetSessionTicketKeys: only the last call matters *)
+Theorem rotate_last c now hist ks c' :
+  Forall (fun l => l <> []) hist -> ks <> [] -> rotate c now (hist ++ [ks]) = Ok c' ->
+  map fst (c_keys c') = map ticket_key_from_bytes ks /\ c_disabled c' = c_disabled c /\ c_stk c' = c_stk c.
+Proof.
+  revert c. induction hist as [|h hist IH]; intros c Hh Hks H.
+  - cbn [app Ticket.rotate] in H. destruct ks as [|k0 ks]; [congruence|].
+    cbn [Ticket.set_session_ticket_keys bind] in H. apply ok_inj in H. subst c'.
+    cbn [c_keys c_disabled c_stk]. rewrite map_map. cbn [fst]. auto.
+  - inversion Hh as [|? ? Hne Hrest]; subst. cbn [app Ticket.rotate] in H.
+    destruct h as [|h0 h]; [congruence|]. cbn [Ticket.set_session_ticket_keys bind] in H.
+    destruct (IH _ Hrest Hks H) as (A & B & C). cbn [c_disabled c_stk] in B, C. auto.
+Qed.
+
+(* public API level: after SetSessionTicketKeys, a ticket made by Config.EncryptTicket is
+   opened by Config.DecryptTicket on the same Config *)
+Theorem config_roundtrip c now now' rnd b bs c1 s t c2 rnd2 :
+  c_disabled c = false -> wf_state x509ok s ->
+  set_session_ticket_keys c now (b :: bs) = Ok c1 ->
+  cfg_encrypt hmac ctr sha512 c1 now rnd s = Ok (t, c2, rnd2) ->
+  exists c3, cfg_decrypt hmac ctr sha512 x509ok c2 now' rnd2 t = Ok (Some s, c3, rnd2).
+Proof.
+  intros Hd Hwf Hset Henc.
+  cbn [Ticket.set_session_ticket_keys] in Hset. apply ok_inj in Hset.
+  assert (K1 : c_keys c1 <> []) by (subst c1; cbn; discriminate).
+  assert (D1 : c_disabled c1 = false) by (subst c1; exact Hd).
+  unfold cfg_encrypt in Henc.
+  destruct (Ticket.ticket_keys sha512 c1 now rnd) as [[[keys cA] rA]| |] eqn:TK; cbn [bind] in Henc; try discriminate.
+  apply bind_ok in Henc. destruct Henc as (st & Hst & Henc).
+  destruct keys as [|k0 keys]; [discriminate|].
+  destruct (take_rand ivLen rA) as [[iv rB]|] eqn:TR; [|discriminate].
+  apply bind_ok in Henc. destruct Henc as (t' & Ht & Henc). apply ok_inj in Henc.
+  assert (t' = t /\ cA = c2 /\ rB = rnd2) as (-> & -> & ->) by (repeat split; congruence).
+  assert (Hiv : length iv = ivLen).
+  { unfold take_rand in TR. destruct (ivLen <=? length rA)%nat eqn:E; [|discriminate].
+    apply Nat.leb_le in E. assert (Eiv : iv = firstn ivLen rA) by congruence. rewrite Eiv. apply firstn_length_le. exact E. }
+  (* what ticket_keys returned the first time *)
+  assert (Hcase : bytes_eqb (c_stk c1) zero32 = false \/ (32 <= length rnd)%nat).
+  { destruct (bytes_eqb (c_stk c1) zero32) eqn:Ez; [right | left; reflexivity].
+    unfold Ticket.ticket_keys in TK. rewrite D1 in TK. unfold init_legacy in TK. rewrite Ez in TK.
+    cbn [negb andb] in TK. unfold take_rand in TK.
+    destruct (32 <=? length rnd)%nat eqn:E; [apply Nat.leb_le in E; exact E | cbn [bind] in TK; discriminate]. }
+  destruct (ticket_keys_explicit c1 now rnd D1 K1 Hcase) as (cA' & rA' & TK' & Kk & Kd & Kz & _).
+  rewrite TK in TK'. injection TK' as Ekeys <- <-.
+  assert (K2 : c_keys c2 <> []) by (rewrite Kk; exact K1).
+  destruct (ticket_keys_explicit c2 now' rnd2 Kd K2 (or_introl Kz)) as (c3 & r3 & TK3 & _ & _ & _ & Hr3).
+  specialize (Hr3 Kz). subst r3.
+  unfold cfg_decrypt. rewrite TK3. cbn [bind]. exists c3.
+  rewrite Kk, <- Ekeys.
+  assert (Henc' : EncryptTicket (k0 :: keys) iv s = Ok t).
+  { unfold Ticket.EncryptTicket. rewrite Hst. cbn [bind]. exact Ht. }
+  rewrite (ticket_roundtrip_head k0 keys keys iv s t Hiv Hwf Henc'). reflexivity.
+Qed.
+
+End Crypto.
+
+(* ---------- forged ClientSessionState ---------- *)
+Theorem forged_state_fields vers suite secret certs chains v' su' ms' :
+  let s0 := make_client_session_state vers suite secret certs chains in
+  s_version s0 = vers /\ s_suite s0 = suite /\ s_secret s0 = secret /\ s_certs s0 = certs /\ s_chains s0 = chains /\
+  let s1 := set_master_secret (set_cipher_suite (set_vers s0 v') su') ms' in
+  s_version s1 = v' /\ s_suite s1 = su' /\ s_secret s1 = ms' /\ s_certs s1 = certs /\ s_chains s1 = chains.
+Proof. cbn. repeat split. Qed.
